@@ -1,26 +1,46 @@
 #!/usr/bin/env python3
-"""Insert the seeded-change matrix (seeded/RESULTS.json) into DESIGN.md between the SEED-MATRIX markers."""
-import json, re
-V = '/verif'
-r = json.load(open(V + '/seeded/RESULTS.json'))
-lines = ['| seed | property | what was changed | detected by (violations) | own check |', '|---|---|---|---|---|']
-miss = []
-for s in sorted(r):
-    row = r[s]
-    if 'error' in row:
-        lines.append('| %s | %s | %s | – | patch no longer applies (the defect it built on was fixed) |' % (s, row['property'], row['error'][:80].replace('|', '/')))
+"""Insert the seeded-change table into DESIGN.md between the SEED-MATRIX markers.
+seeded/RESULTS-own.json: every seed against the check of its own property (tools/run_seeds.py --own) at HEAD;
+seeded/RESULTS-full-partial.json: the seeds for which all 20 checks were run (cross-detection)."""
+import json, os, re
+V = os.path.dirname(os.path.dirname(os.path.abspath(__file__)))
+own = json.load(open(V + '/seeded/RESULTS-own.json'))
+full = json.load(open(V + '/seeded/RESULTS-full-partial.json')) if os.path.exists(V + '/seeded/RESULTS-full-partial.json') else {}
+seeds = sorted((s for s in os.listdir(V + '/seeded') if os.path.isdir(os.path.join(V, 'seeded', s))), key=lambda s: (s.split('-')[0], int(s.split('-')[1])))
+lines = ['| seed | what was changed | report of the property\'s own check (first of n) | also reported by |', '|---|---|---|---|']
+nown = nother = nmiss = nerr = 0
+for s in seeds:
+    row = own.get(s)
+    meta = json.load(open(os.path.join(V, 'seeded', s, 'meta.json')))
+    summ = re.sub(r'\s+', ' ', meta.get('summary', ''))[:170].replace('|', '/')
+    if row is None:
+        lines.append('| %s | %s | (not run) | |' % (s, summ))
         continue
-    det = row['detected_by']
-    own = row['property'] in det
-    if not det:
-        miss.append(s)
-    summ = re.sub(r'\s+', ' ', row.get('summary', ''))[:150].replace('|', '/')
-    lines.append('| %s | %s | %s | %s | %s |' % (s, row['property'], summ, ', '.join('%s (%s)' % (k, v['violations'] or 'fail-closed') for k, v in sorted(det.items())) or '**missed**', 'yes' if own else ('no' if det else '**no**')))
-txt = '\n'.join(lines) + '\n\n%d seeds, %d detected by the check of their own property, %d by another check only, %d missed%s.\n' % (
-    len(r), sum(1 for s in r if 'detected_by' in r[s] and r[s]['property'] in r[s]['detected_by']),
-    sum(1 for s in r if 'detected_by' in r[s] and r[s]['detected_by'] and r[s]['property'] not in r[s]['detected_by']), len(miss), (' (' + ', '.join(miss) + ')') if miss else '')
+    if 'error' in row:
+        nerr += 1
+        lines.append('| %s | %s | patch no longer applies (the defect it built on was repaired in /repo) | |' % (s, summ))
+        continue
+    pid = row['property']
+    det = row.get('detected_by') or {}
+    others = ''
+    fr = full.get(s)
+    if fr and fr.get('when', '') >= '2026-09-28 15' and 'detected_by' in fr:
+        others = ', '.join(k for k in sorted(fr['detected_by']) if k != pid)
+    if pid in det:
+        nown += 1
+        d = det[pid]
+        first = re.sub(r'\s+', ' ', d.get('first', ''))[:150].replace('|', '/')
+        n = d.get('violations') or 0
+        lines.append('| %s | %s | %s (%s) | %s |' % (s, summ, first, ('%d' % n) if n else 'fail-closed', others))
+    elif others:
+        nother += 1
+        lines.append('| %s | %s | **not reported** | %s |' % (s, summ, others))
+    else:
+        nmiss += 1
+        lines.append('| %s | %s | **not reported** | |' % (s, summ))
+txt = '\n'.join(lines) + '\n\n%d seeds: %d reported by the check of their own property, %d by another check only, %d missed, %d no longer applicable.\n' % (len(seeds), nown, nother, nmiss, nerr)
 p = V + '/DESIGN.md'
 d = open(p).read()
 d = re.sub(r'<!-- SEED-MATRIX-BEGIN -->.*?<!-- SEED-MATRIX-END -->', lambda m: '<!-- SEED-MATRIX-BEGIN -->\n' + txt + '<!-- SEED-MATRIX-END -->', d, flags=re.S)
 open(p, 'w').write(d)
-print(txt[-300:])
+print(txt[-200:])
